@@ -15,7 +15,7 @@
 (* The clause names say which property a failure belongs to (c01_ / c02_ / *)
 (* c10_); each check reports only its own clauses.                         *)
 (***************************************************************************)
-EXTENDS Grid, MeridianArc, Json, IOUtils
+EXTENDS Grid, KruegerTM, Json, IOUtils
 
 Data   == JsonDeserialize(IOEnv.TRACE_FILE)
 Traces == Data.traces
@@ -132,7 +132,29 @@ CMChecks(o) ==
              <<"c10_conv_on_axes", Within(FromJ(o.fwd.conv), Zero, Deg1e9)>> >>
      IN F(Meridian(FromJ(o.ell.a), n, o.tri), LatDeg(o.tri))
 
+\* anywhere within 30 degrees of the central meridian, at a Pythagorean latitude and a Pythagorean longitude
+\* difference: the EXACT Transverse Mercator image, scale factor and convergence from KruegerTM (in-spec oracle)
+TMChecks(o) ==
+  LET prj == Prj(o.prj)
+      n == ThirdFlat(FromJ(o.ell.invf), FromJ(o.n0))
+  IN IF ~NOK(FromJ(o.ell.invf), n) THEN << <<"oracle_start_value", FALSE>> >>
+     ELSE
+     LET F(t, AA, londeg) ==
+          LET sgn == IF (o.tdl[1] > 0) = (o.tri[1] > 0) THEN -1 ELSE 1        \* sign(conv) = - sign(dl) sign(lat)
+              convExp == MulSmall(Deg(ConvMagnitude(o.tdl, t)), sgn)
+              lonExp == Add(FromInt(CMdeg(prj, o.fwd.zone)), IF o.tdl[1] < 0 THEN Neg(londeg) ELSE londeg)
+          IN << <<"oracle_residuals", ResidualsOK(t.res)>>,
+                <<"c01_tm_easting", Within(E(o), Add(prj.fe, Mul(prj.k0, Mul(AA, t.eta))), Mm02)>>,
+                <<"c01_tm_northing", Within(N(o), Add(FNeff(prj, o.fwd.hemi), Mul(prj.k0, Mul(AA, t.xi))), Mm02)>>,
+                <<"c10_tm_scale_factor", Within(FromJ(o.fwd.psf), Mul(prj.k0, ScaleOverK0(FromJ(o.ell.a), n, o.tri, t)), Add(Psf2e8, Half8))>>,
+                <<"c10_tm_convergence", o.tri[1] = 0 \/ o.tdl[1] = 0 \/ Within(FromJ(o.fwd.conv), convExp, Deg1e9)>>,
+                <<"c02_tm_inverse_lat", ~GridOK(E(o), N(o)) \/ o.inv.exc # "" \/ Within(FromJ(o.inv.lat), LatDeg(o.tri), Dec(2500, 3))>>,
+                <<"c02_tm_inverse_lon", ~GridOK(E(o), N(o)) \/ o.inv.exc # "" \/ Within(FromJ(o.inv.lon), lonExp, LonEnv(o))>> >>
+     IN F(TMRatios(n, o.tri, o.tdl), RectRadius(FromJ(o.ell.a), n),
+          Deg(AtanPos(IF o.tdl[1] < 0 THEN -o.tdl[1] ELSE o.tdl[1], o.tdl[2])))
+
 Checks(ev) == CASE ev.k = "P" -> PChecks(ev.o)
+                [] ev.k = "TM" -> TMChecks(ev.o)
                 [] ev.k = "CM" -> CMChecks(ev.o)
                 [] ev.k = "PAIR" -> PairChecks(ev.rel, ev.a, ev.b)
                 [] ev.k = "IRT" -> IRTChecks(ev.o)
